@@ -726,4 +726,158 @@ Section Sim.
   Proof.
     intros Hvnd Hvp Hpnd Hpp Hc. unfold qd_evaluate. rewrite <- (Permutation_length Hvp). apply qd_eval_perm; assumption.
   Qed.
+
+  (* ------------------------------------------------------------ LargestRemainder *)
+  Definition lr_rel (r r' : lr_result) : Prop :=
+    match r, r' with
+    | LR_ok s, LR_ok s' => ok_rel s s'
+    | LR_err e, LR_err e' => qd_rel e e'
+    | LR_index, LR_index => True
+    | _, _ => False
+    end.
+
+  Definition tset_eqb (l m : list C) : bool := forallb (fun c => cmem c m) l && forallb (fun c => cmem c l) m.
+  Fixpoint tincr (t : list (list C * Z)) (l : list C) : list (list C * Z) :=
+    match t with
+    | [] => [(l, 1)]
+    | (l0, z) :: r => if tset_eqb l l0 then (l0, z + 1) :: r else (l0, z) :: tincr r l
+    end.
+
+  Lemma forallb_perm {A} (f : A -> bool) l l' : Permutation l l' -> forallb f l = forallb f l'.
+  Proof.
+    induction 1 as [|x l l' _ IH|x y l|l l' l'' _ IH1 _ IH2]; simpl; try congruence.
+    destruct (f x), (f y); reflexivity.
+  Qed.
+  Lemma forallb_ext' {A} (f g : A -> bool) l : (forall x, f x = g x) -> forallb f l = forallb g l.
+  Proof. intros H. induction l as [|x l IH]; simpl; [reflexivity|]. rewrite H, IH. reflexivity. Qed.
+
+  Lemma tset_eqb_perm l l' m m' : Permutation l l' -> Permutation m m' -> tset_eqb l m = tset_eqb l' m'.
+  Proof.
+    intros Hl Hm. unfold tset_eqb. f_equal.
+    - rewrite (forallb_perm _ _ _ Hl). apply forallb_ext'. intros c. apply cmem_perm, Hm.
+    - rewrite (forallb_perm _ _ _ Hm). apply forallb_ext'. intros c. apply cmem_perm, Hl.
+  Qed.
+
+  Lemma tincr_rel t t' l l' : Forall2 tie_rel t t' -> Permutation l l' -> Forall2 tie_rel (tincr t l) (tincr t' l').
+  Proof.
+    intros H Hl. induction H as [|[l0 z] [l0' z'] t t' [Hp Hz] Hrest IH]; simpl.
+    - constructor; [split; [exact Hl|reflexivity]|constructor].
+    - simpl in Hp, Hz. subst z'. rewrite (tset_eqb_perm _ _ _ _ Hl Hp).
+      destruct (tset_eqb l' l0'); constructor; try assumption; split; simpl; auto.
+  Qed.
+
+  Lemma plain_kincr_K d c : plain_of (kincr d (K c)) = incr_t (plain_of d) c.
+  Proof.
+    unfold incr_t. induction d as [|[[c'|l] s] t IH]; simpl; [reflexivity| |exact IH].
+    unfold dget_or. simpl. destruct (ceqb c c') eqn:E; simpl; [reflexivity|].
+    fold (plain_of t). fold (plain_of (kincr t (K c))). rewrite IH. reflexivity.
+  Qed.
+  Lemma ties_kincr_K d c : ties_of (kincr d (K c)) = ties_of d.
+  Proof.
+    induction d as [|[[c'|l] s] t IH]; simpl; [reflexivity| |].
+    - destruct (ceqb c c'); simpl; [reflexivity|exact IH].
+    - fold (ties_of t). fold (ties_of (kincr t (K c))). rewrite IH. reflexivity.
+  Qed.
+  Lemma plain_kincr_T d l : plain_of (kincr d (KT l)) = plain_of d.
+  Proof.
+    induction d as [|[[c'|l0] s] t IH]; simpl; [reflexivity| |].
+    - fold (plain_of t). fold (plain_of (kincr t (KT l))). rewrite IH. reflexivity.
+    - destruct (_ && _); simpl; [reflexivity|exact IH].
+  Qed.
+  Lemma ties_kincr_T d l : ties_of (kincr d (KT l)) = tincr (ties_of d) l.
+  Proof.
+    induction d as [|[[c'|l0] s] t IH]; simpl; [reflexivity|exact IH|].
+    fold (tset_eqb l l0). destruct (tset_eqb l l0); simpl; [reflexivity|].
+    fold (ties_of t). fold (ties_of (kincr t (KT l))). rewrite IH. reflexivity.
+  Qed.
+
+  Notation seatf := (fun (d : list (key * Z)) (r : res C) => match r with Cand c => kincr d (K c) | TieR l => kincr d (KT l) end).
+
+  Lemma seat_cands cs : forall d, plain_of (fold_left seatf (map Cand cs) d) = fold_left incr_t cs (plain_of d) /\
+    ties_of (fold_left seatf (map Cand cs) d) = ties_of d.
+  Proof.
+    induction cs as [|c cs IH]; intros d; simpl; [split; reflexivity|].
+    destruct (IH (kincr d (K c))) as [A B]. rewrite A, B, plain_kincr_K, ties_kincr_K. split; reflexivity.
+  Qed.
+
+  Lemma seat_cands_rel cs cs' d d' : Permutation cs cs' -> ok_rel d d' ->
+    ok_rel (fold_left seatf (map Cand cs) d) (fold_left seatf (map Cand cs') d').
+  Proof.
+    intros Hp (Hn & Hpl & Ht). destruct (seat_cands cs d) as [A B]. destruct (seat_cands cs' d') as [A' B'].
+    unfold ok_rel. rewrite A, B, A', B'. split; [|split; [|exact Ht]].
+    - apply fold_op_nodup; [apply incr_t_nodup|exact Hn].
+    - apply fold_op_perm; try assumption; [apply incr_t_nodup|apply incr_t_perm|apply incr_t_comm].
+  Qed.
+
+  Lemma seat_ties_rel T T' k : Permutation T T' -> forall d d', ok_rel d d' ->
+    ok_rel (fold_left seatf (repeat (TieR T) k) d) (fold_left seatf (repeat (TieR T') k) d').
+  Proof.
+    intros HT. induction k as [|k IH]; intros d d' H; simpl; [exact H|].
+    apply IH. destruct H as (Hn & Hpl & Ht). unfold ok_rel. rewrite !plain_kincr_T, !ties_kincr_T.
+    split; [exact Hn|]. split; [exact Hpl|]. apply tincr_rel; assumption.
+  Qed.
+
+  Lemma remainders_rel votes q q' gained gained' caps caps' : (q' == q)%Q ->
+    (forall c, dget_or gained' c 0 = dget_or gained c 0) -> (forall c, dget caps' c = dget caps c) ->
+    lrel (K := C) Qeq (remainders votes q gained caps) (remainders votes q' gained' caps').
+  Proof.
+    intros Hq Hg Hc. unfold remainders. induction votes as [|[c v] t IH]; simpl; [constructor|].
+    rewrite Hc, Hg.
+    assert (Hp : prel (K := C) Qeq (c, (v / q - inject_Z (dget_or gained c 0%Z))%Q) (c, (v / q' - inject_Z (dget_or gained c 0%Z))%Q)).
+    { split; [reflexivity|]. simpl. rewrite Hq. reflexivity. }
+    destruct (dget caps c) as [m|].
+    - destruct (_ <? m); [|exact IH]. apply Forall2_app; [|exact IH]. constructor; [exact Hp|constructor].
+    - apply Forall2_app; [|exact IH]. constructor; [exact Hp|constructor].
+  Qed.
+
+  Theorem lr_evaluate_perm votes votes' n prev prev' caps caps' :
+    NoDup (map fst votes) -> Permutation votes votes' -> keysnd prev -> Permutation prev prev' ->
+    (forall c, dget caps' c = dget caps c) ->
+    lr_rel (lr_evaluate quota accept_equal pol votes n prev caps) (lr_evaluate quota accept_equal pol votes' n prev' caps').
+  Proof.
+    intros Hvnd Hvp Hpnd Hpp Hc. unfold lr_evaluate.
+    pose proof (qd_evaluate_perm votes votes' n prev prev' [] [] Hvnd Hvp Hpnd Hpp (fun _ => eq_refl)) as Hqd.
+    destruct (qd_evaluate quota accept_equal pol votes n prev []) as [qe| | | | |];
+    destruct (qd_evaluate quota accept_equal pol votes' n prev' []) as [qe'| | | | |]; try exact Hqd; try contradiction.
+    cbn [qd_rel] in Hqd. fold (has_tie qe) (has_tie qe') (plain_of qe) (plain_of qe').
+    rewrite <- (ok_rel_has_tie _ _ Hqd). destruct (has_tie qe); [exact I|].
+    assert (Hq : (quota (qsumv votes') n == quota (qsumv votes) n)%Q) by (apply Hquota; symmetry; apply qsumv_perm, Hvp).
+    set (q := quota (qsumv votes) n) in *. set (q' := quota (qsumv votes') n) in *.
+    pose proof Hqd as (Hen & Hep & _).
+    assert (Hgn : keysnd (add_dict (plain_of qe) prev)) by (apply add_dict_nodup, Hen).
+    assert (Hgp : Permutation (add_dict (plain_of qe) prev) (add_dict (plain_of qe') prev')) by (apply add_dict_perm; assumption).
+    set (gained := add_dict (plain_of qe) prev) in *. set (gained' := add_dict (plain_of qe') prev') in *.
+    rewrite <- (zsumv_perm _ _ Hgp).
+    assert (Hz : Qeq_bool q' 0 = Qeq_bool q 0) by (apply Qeq_bool_ext; [exact Hq|reflexivity]).
+    rewrite Hz. destruct (Qeq_bool q 0); [exact I|].
+    destruct (n - zsumv gained <=? 0) eqn:En; [exact Hqd|].
+    fold (remainders votes q gained caps) (remainders votes' q' gained' caps').
+    assert (Hg : forall c, dget_or gained' c 0 = dget_or gained c 0) by (intros c; symmetry; apply dget_or_perm; assumption).
+    rewrite <- (get_n_best_rel Qle_bool Qle_bool Qeq qrel_sym_emb _ _ _ (remainders_rel votes q q' gained gained' caps caps' Hq Hg Hc)).
+    assert (Hn1 : (1 <= Z.to_nat (n - zsumv gained))%nat) by (apply Z.leb_gt in En; lia).
+    assert (Hnd2 : NoDup (map fst (remainders votes q' gained' caps'))) by (apply remainders_nodup, Hvnd).
+    assert (Hp2 : Permutation (remainders votes q' gained' caps') (remainders votes' q' gained' caps')).
+    { unfold remainders. apply Permutation_flat_map, Hvp. }
+    destruct (gnb_perm_shape _ _ _ Hn1 Hnd2 Hp2) as (cs & cs' & T & T' & k & E & E' & Pcs & Ncs & PT).
+    rewrite E, E', !fold_left_app. cbn [lr_rel].
+    destruct k as [|k].
+    - simpl. apply seat_cands_rel; assumption.
+    - apply seat_ties_rel; [apply PT; lia|]. apply seat_cands_rel; assumption.
+  Qed.
 End Sim.
+
+(* the library's quota functions do not distinguish equal rationals *)
+Lemma quota_fn_ext qs : quota_ext (quota_fn qs).
+Proof.
+  intros a b n H. destruct qs as [i|qc]; [|reflexivity]. unfold quota_fn.
+  assert (F : forall x y, (x == y)%Q -> (qfloor x == qfloor y)%Q) by (intros x y E; unfold qfloor; rewrite (Qfloor_comp _ _ E); reflexivity).
+  assert (G : forall x y, (x == y)%Q -> (qceil x == qceil y)%Q) by (intros x y E; unfold qceil; rewrite (Qceiling_comp _ _ E); reflexivity).
+  assert (R : forall x y, (x == y)%Q -> (round_half_up x == round_half_up y)%Q) by (intros x y E; unfold round_half_up; apply F; rewrite E; reflexivity).
+  destruct (i =? 1); [unfold hare; rewrite H; reflexivity|].
+  destruct (i =? 2); [unfold hare_rounded; apply R; rewrite H; reflexivity|].
+  destruct (i =? 3); [unfold droop; apply Qplus_comp; [apply F; rewrite H|]; reflexivity|].
+  destruct (i =? 4); [unfold hagenbach_bischoff; rewrite H; reflexivity|].
+  destruct (i =? 5); [unfold hagenbach_bischoff_ceil; apply G; rewrite H; reflexivity|].
+  destruct (i =? 6); [unfold hagenbach_bischoff_rounded; apply R; rewrite H; reflexivity|].
+  unfold imperiali. rewrite H. reflexivity.
+Qed.
